@@ -97,6 +97,8 @@ class SerializedWaiter(BaseModel):
     # Whether the wait already timed out (its TimeoutError is still to be delivered
     # by the replay of the waiting step)
     timed_out: bool = Field(default=False)
+    # catch_error recovery counts of the waiting invocation's lineage
+    recovery_counts: dict[str, int] = Field(default_factory=dict)
 
     @model_validator(mode="before")
     @classmethod
